@@ -442,6 +442,7 @@ Step(s, ev, ch) ==
       [] ev.k = "send"    -> Send(s, ev, ch)
       [] ev.k = "sendjunk" -> SendJunk(s)
       [] ev.k = "reboot"  -> SetReboot(s, ev.n)
+      [] ev.k = "cycle"   -> Quiet(s, Done)     \* the gateway context is left and entered again: nothing changes
 
 (* Results(s, ev, NoHint): all results the properties allow (viol = {} by construction).  *)
 (* With a hint the choices follow what was observed and r.viol names the constraints  *)
